@@ -32,6 +32,10 @@ type Gen struct {
 	O *Opts
 
 	inElem int // >0 while generating the elements of an object list: nested lists stay short there
+
+	// Mem, when set, is shared by the cases of one type: a new prefixed text sometimes is an earlier case's
+	// text plus a suffix (values of consecutive messages are related: same account, longer order id …)
+	Mem *[]string
 }
 
 func (g *Gen) feat(k string) {
@@ -176,6 +180,17 @@ func (g *Gen) field(t *schema.Type, f *schema.Field, fv reflect.Value) {
 	case "fixstr":
 		fv.SetString(g.FixText(f.N, byte(f.Pad), f.Left))
 	case "pstr":
+		if g.Mem != nil && len(*g.Mem) > 0 && g.R.Chance(1, 3) {
+			base := (*g.Mem)[g.R.Intn(len(*g.Mem))]
+			fv.SetString(base + g.Text(1+g.R.Intn(4)))
+			g.feat("coupled:text-extends-a-text-of-an-earlier-message")
+			return
+		}
+		defer func() {
+			if g.Mem != nil && fv.Len() >= 8 && fv.Len() <= 64 && len(*g.Mem) < 64 {
+				*g.Mem = append(*g.Mem, fv.String())
+			}
+		}()
 		if g.inElem > 0 {
 			fv.SetString(g.Text(g.R.PickInt([]int{0, 1, 2, 5, 17})))
 		} else {
